@@ -7,7 +7,7 @@ CONSTANTS
   FieldSet = "full"
   Entries <- EntriesUntrusted
   MaxOps = 2
-  Heavy <- HeavyAll
+  Heavy <- HeavyClassic
   HeavyAfter <- HeavyLiteSet
   Muts <- MutsAll
 INVARIANTS TypeOK NoPanic WellOrdered Emit
